@@ -153,7 +153,7 @@ def run(prop, tier, seed, update_lock=False, verbose=False):
     for k in open_known:
         if k.get("obligation") and k.get("class"):
             uni.kf_classes.setdefault(k["obligation"], []).append(k["class"])
-    timeout_ms = 10000 if tier == "quick" else 60000
+    timeout_ms = 30000 if tier == "quick" else 120000
     result = {"violations": [], "undecided": [], "errors": [],
               "known_printed": []}
     functions, all_obls, reports = [], [], []
